@@ -4,7 +4,8 @@
    Permutation of the list, and distinct keys (NoDup) is what being a map means. *)
 From Coq Require Import Permutation Sorted.
 From Verif Require Import Base.Str Base.Outcome Model.Ast Model.Printer
-  Proofs.SortFacts Proofs.PrinterOrder Proofs.PrinterCanonical Proofs.PrinterComments.
+  Proofs.SortFacts Proofs.PrinterOrder Proofs.PrinterCanonical Proofs.PrinterComments Proofs.CommentInert
+  Model.Lexer Model.Transform.
 
 (* 1. sortByModule is a strict total order on items with distinct names: lexicographic on
       (unattributed first, module, file, name) *)
@@ -80,3 +81,17 @@ Qed.
 Theorem C14_comments_do_not_change_the_verdict : forall m,
   same_verdict (fst (print_model true m)) (fst (print_model false m)).
 Proof. exact print_model_verdict. Qed.
+
+(* 8. the comments are inert: for every model whose module and file names contain no line break, the output with
+      source information is the plain output with " # ..." segments inserted right before line breaks or at the
+      very end ([DP]); hence cutting comments line by line (strings.Split(line, " #")[0], what ParseDSL's pre-pass
+      does) gives the same lines, the pre-pass sees the same text, and both outputs parse to the same result *)
+Theorem C14_output_with_comments_is_the_plain_output_decorated : forall m t1 t0,
+  model_nonl m -> fst (print_model true m) = Ok t1 -> fst (print_model false m) = Ok t0 -> DP t1 t0.
+Proof. exact print_model_decorated. Qed.
+
+Theorem C14_comments_are_inert : forall m t1 t0,
+  model_nonl m -> fst (print_model true m) = Ok t1 -> fst (print_model false m) = Ok t0 ->
+  prepass t1 = prepass t0 /\ dsl_to_model t1 = dsl_to_model t0 /\
+  map cut_comment (split_on 10 t1) = map cut_comment (split_on 10 t0).
+Proof. exact comments_are_inert. Qed.
